@@ -44,6 +44,7 @@ type srvMirror struct {
 	term        []string // Serve is shutting down: the locks it still has to take, in order
 	inTerm      bool
 	stall       string
+	wait        time.Duration // how long a step of Serve that is due is waited for
 }
 
 // poll waits until cond holds (Serve's steps take microseconds once they are enabled).
@@ -71,7 +72,7 @@ func serveParked() bool {
 }
 
 func (m *srvMirror) parked(what string) {
-	if !poll(3*time.Second, serveParked) {
+	if !poll(m.wait, serveParked) {
 		m.stall = "Serve is not waiting for " + what
 	}
 }
@@ -102,16 +103,19 @@ func (m *srvMirror) advance() {
 						m.parked("the output lock held by the application (sendError)")
 						return
 					}
-					if !poll(3*time.Second, func() bool { return t.s.State()&xmpp.OutputStreamClosed != 0 }) {
+					if !poll(m.wait, func() bool { return t.s.State()&xmpp.OutputStreamClosed != 0 }) {
 						m.stall = "sendError did not close the output although the output lock is free"
 						return
 					}
 				case "in":
 					if m.rc != nil {
-						m.parked("the input lock held by the application (closeInputStream)")
-						return
+						// Whether Serve's shutdown waits for a token reader held by the application
+						// is the implementation's choice (the `held` scenario states what must hold
+						// either way): the reader is given back before anything is observed
+						m.rc.Close()
+						m.rc = nil
 					}
-					if !poll(3*time.Second, func() bool { return t.s.State()&xmpp.InputStreamClosed != 0 }) {
+					if !poll(m.wait, func() bool { return t.s.State()&xmpp.InputStreamClosed != 0 }) {
 						m.stall = "Serve's shutdown did not mark the input closed although the input lock is free"
 						return
 					}
@@ -123,7 +127,7 @@ func (m *srvMirror) advance() {
 				}
 				m.term = m.term[1:]
 			}
-			if !t.waitServe(3 * time.Second) {
+			if !t.waitServe(m.wait) {
 				m.stall = "Serve did not return although both locks are free"
 			}
 			return
@@ -137,7 +141,7 @@ func (m *srvMirror) advance() {
 			// the handler's reply goes out (or fails on a closed output), the handler returns
 			select {
 			case <-t.handled:
-			case <-time.After(3 * time.Second):
+			case <-time.After(m.wait):
 				m.stall = "the handler did not get the output lock after it was given back"
 				return
 			}
@@ -162,7 +166,7 @@ func (m *srvMirror) advance() {
 		if k == "" {
 			// blocked in its read, holding the input lock: a keep-alive is taken only by a
 			// Serve that is inside the read (the decoder keeps waiting for what follows it)
-			if !t.feedWithin(" ", 3*time.Second) {
+			if !t.feedWithin(" ", m.wait) {
 				m.stall = "Serve does not read"
 			}
 			m.kept = true
@@ -174,7 +178,7 @@ func (m *srvMirror) advance() {
 		case "ds":
 			select {
 			case <-t.handled:
-			case <-time.After(3 * time.Second):
+			case <-time.After(m.wait):
 				m.stall = "a stanza was not handled"
 				return
 			}
@@ -185,7 +189,7 @@ func (m *srvMirror) advance() {
 			}
 			select {
 			case <-t.handled:
-			case <-time.After(3 * time.Second):
+			case <-time.After(m.wait):
 				m.stall = "a stanza was not handled"
 				return
 			}
@@ -209,7 +213,10 @@ func (c *ctxT) srv(acts []string) {
 		r.Line(line, "ERR")
 		return
 	}
-	m := &srvMirror{t: t}
+	m := &srvMirror{t: t, wait: 3 * time.Second}
+	if c.stalls >= 5 {
+		m.wait = 150 * time.Millisecond
+	}
 	defer func() {
 		if m.rc != nil {
 			m.rc.Close()
@@ -294,7 +301,7 @@ loop:
 				break
 			}
 			var e error
-			if !common.WithTimeout(3*time.Second, func() { e = t.s.Close() }) {
+			if !common.WithTimeout(m.wait, func() { e = t.s.Close() }) {
 				x = "STALL"
 			} else if e != nil {
 				x = "failed"
@@ -381,6 +388,7 @@ loop:
 	r.Case(line, true, "srv")
 	fail := func(clause, key, detail string) { r.Fail(clause, "srv/"+key, lines, detail) }
 	if m.stall != "" {
+		c.stalls++
 		fail("serve-returns", "stall", m.stall)
 	}
 	if werr != nil {
@@ -409,6 +417,9 @@ func (c *ctxT) srvCases() {
 	}
 	prefixes := [][]string{{}, {"ai"}, {"ao"}, {"ao", "aw"}, {"ai", "ao"}}
 	tail := []string{"ds", "dy", "dc", "db", "x", "c", "aw", "ri", "ro", "ai", "ao"}
+	// the thorough tier adds the sequences of length 3 without the two actions that end a scenario
+	// by waiting (an acquire that stays blocked costs its timeout)
+	tail3 := []string{"ds", "dy", "dc", "db", "x", "c", "aw", "ri", "ro"}
 	maxLen := r.Pick(2, 3)
 	for _, p := range prefixes {
 		var rec func(cur []string, n int)
@@ -417,11 +428,23 @@ func (c *ctxT) srvCases() {
 			if n == maxLen {
 				return
 			}
-			for _, a := range tail {
+			al := tail
+			if maxLen == 3 {
+				al = tail3
+			}
+			for _, a := range al {
 				rec(append(append([]string(nil), cur...), a), n+1)
 			}
 		}
 		rec(nil, 0)
+		if maxLen == 3 {
+			for _, a := range tail {
+				for _, b := range []string{"ai", "ao"} {
+					c.srv(append(append(append([]string(nil), p...), "v"), a, b))
+					c.srv(append(append(append([]string(nil), p...), "v"), b, a))
+				}
+			}
+		}
 	}
-	r.Exhaustive = append(r.Exhaustive, fmt.Sprintf("serve thread: application holding nothing / a TokenReader / a TokenWriter / a TokenWriter it has written through / both when Serve starts x all sequences of length <= %d over %v, Serve left to run until it blocks after every action", maxLen, tail))
+	r.Exhaustive = append(r.Exhaustive, fmt.Sprintf("serve thread: application holding nothing / a TokenReader / a TokenWriter / a TokenWriter it has written through / both when Serve starts x all sequences of length <= 2 over %v (thorough: and of length 3 over %v), Serve left to run until it blocks after every action", tail, tail3))
 }
